@@ -269,6 +269,21 @@ pub fn sign(
 /// signs the public key of level i+1, the bottom level signs `msg`.  To a verifier the result is
 /// indistinguishable from a signature of a fully generated key with those parameters.
 pub fn synthetic_triple(cfg: &Cfg, levels: &[Level], qs: &[u32], msg: &[u8], rng: &mut crate::Rng) -> (Vec<u8>, Vec<u8>) {
+    synthetic_triple_forged(cfg, levels, qs, msg, rng, None)
+}
+
+/// Like `synthetic_triple`, but the public key of level `forge.0` (>= 1) is replaced by
+/// `forge.1(original bytes)` BEFORE the level above signs it: the parent's signature over the
+/// replaced bytes is valid, so a verifier gets as far as interpreting an authenticated but
+/// malformed (or foreign) child key.  RFC 8554 rejects such a signature when it parses that key.
+pub fn synthetic_triple_forged(
+    cfg: &Cfg,
+    levels: &[Level],
+    qs: &[u32],
+    msg: &[u8],
+    rng: &mut crate::Rng,
+    forge: Option<(usize, &dyn Fn(&[u8]) -> Vec<u8>)>,
+) -> (Vec<u8>, Vec<u8>) {
     let n = cfg.n();
     let l = levels.len();
     let mut lms_sigs: Vec<Vec<u8>> = vec![Vec::new(); l];
@@ -293,6 +308,11 @@ pub fn synthetic_triple(cfg: &Cfg, levels: &[Level], qs: &[u32], msg: &[u8], rng
             r /= 2;
         }
         pubs[i] = lms::lms_public_key(lms_code, o.code, &i_tree, &node);
+        if let Some((at, f)) = &forge {
+            if *at == i && i > 0 {
+                pubs[i] = f(&pubs[i]);
+            }
+        }
         let mut sg = Vec::new();
         sg.extend_from_slice(&q.to_be_bytes());
         sg.extend_from_slice(&o.code.to_be_bytes());
